@@ -15,6 +15,7 @@ def check(ctx):
     kernel.analyze(ctx, RULES)
     cursor.analyze(ctx, {"C04.c"})
     kernel.lookahead_wiring(ctx, ("C04.f",))
+    kernel.token_type_uniqueness(ctx, "C04.g", "lookahead-table-key-is-the-token-type-but-token-types-may-repeat", "with patterns [b(?=x) -> 7, a -> 7] the input \"a\" yields no token: the lookahead of the first pattern is applied to the second (one table entry per token type, add_lookahead overwrites)")
     from .common import cache_foundation, language_foundation
     language_foundation(ctx)
     cache_foundation(ctx)
